@@ -276,6 +276,12 @@ def check_c13(obs: absdoc.AbsDoc, src: absdoc.AbsDoc, ref, isd_live=None, source
             diffs.append(("origin-position", f"{where} origin {show(o)} != position {show(p)}"))
         if not n.children and n.styles.get("ShowBackground") != ("E", "ShowBackgroundType", "always"):
           diffs.append(("empty-region-kept", f"{where} has no content and showBackground {show(n.styles.get('ShowBackground'))}"))
+        elif n.children and n.styles.get("ShowBackground") != ("E", "ShowBackgroundType", "always") \
+            and not any(d.kind in ("Text", "Br", "Rb", "Rbc") for d in n.walk()):
+          # containers only (body / div / p / span left childless): nothing to present; ruby bases, which ttconv keeps when
+          # empty, are not judged
+          diffs.append(("empty-region-kept:containers-only", f"{where} holds containers without any text or line break and showBackground "
+                        f"{show(n.styles.get('ShowBackground'))}"))
   if isd_live is not None:
     diffs.extend(_check_ownership(isd_live, source_ids))
   return diffs
